@@ -51,6 +51,7 @@ fn graph_hash(c: &CaseSpec) -> u64 {
         h.usize(e.from);
         h.usize(e.to);
         h.u8(e.kind as u8);
+        h.u64(e.batch as u64);
     }
     h.0
 }
